@@ -61,6 +61,7 @@ VARIANTS = [
     ('SUMIF/3corner', '=SUMIF(A1:A{n},{c},B1)', 'sum', False),
     ('SUMIF/3short', '=SUMIF(A1:A{n},{c},B1:B2)', 'sum', False),
     ('SUMIF/3long', '=SUMIF(A1:A{n},{c},B1:B6)', 'sum', False),
+    ('SUMIF/3wholecol', '=SUMIF(A1:A{n},{c},B:B)', 'sum', False),
     ('SUMIF/3lower', '=SUMIF(A1:A{n},{c},B2:B{p})', 'sum_lower1', False),
     ('SUMIF/3lowercorner', '=SUMIF(A1:A{n},{c},B3)', 'sum_lower2', False),
     ('SUMIF/3lowershort', '=SUMIF(A1:A{n},{c},E3:E4)', 'sum_e', False),
